@@ -66,6 +66,13 @@ def check(run, project):
         c15.f1_f2(RuleView(run, "F1", "L13"), project)
     except AnalysisError as ex:
         run.info(f"L13: the front-ends could not be followed ({ex}); not judged here (C15 reports it)")
+    # L14 (= C02-B2): `--out binary` prints the bytes of every decoded field and exits 0 also when the event stream carries
+    # warnings (convert decodes in warn mode): the encoder's guards skip events without a value before they look at one
+    from . import c02
+    try:
+        c02.b2_b3(RuleView(run, "B2", "L14"), project)
+    except AnalysisError as ex:
+        run.info(f"L14: the binary encoder could not be followed ({ex}); not judged here (C02 reports it)")
     # L11 (= C11-A1): `example` prints what the events rebuilt from the decoded object say; the members a message may lack
     # altogether (no sessions, failure) must be exactly those the object-to-events conversion leaves out, else a printed
     # example carries a field its bytes do not have
